@@ -290,24 +290,35 @@ def check_corrupt(case):
         ops.append(("generic", lambda plc: plc.generic_message(service=0x0E, class_code=1, instance=1, attribute=1, connected=True)))
         ops.append(("time", lambda plc: plc.get_plc_time()))
         plc, results = run_ops(factory, ops, discs, "corrupt")
-        # a reply too short to contain its status words is never reported as success
-        if cor.applied is not None and case["mode"] == "truncate":
+        # a reply too short to contain its status words is never reported as success: a RegisterSession reply (the
+        # first reply of the session) cut before its status word must not leave the driver with a session
+        if cor.applied is not None and case["mode"] == "truncate" and case["k"] == 0:
             full_len, out = cor.applied
-            if len(out) < 44:
-                for name, res in results:
-                    pass
+            if len(out) < 12 and cor.inner.log:
+                discs.append(Disc("corrupt.short-register-accepted", f"RegisterSession reply cut to {len(out)} bytes, yet the driver went on to send CIP requests"))
     finally:
         harness.uninstall()
     return discs
 
 
-def check_short_reply(kind, cut):
+def check_short_reply(kind, cut, session=0x1234):
     """packet level: a reply cut before its status words is never truthy"""
     req = make_request(kind)
     data = b"\xc4\x00" + struct.pack("<i", 5)
-    cip = cip_reply({"gconn": 0x0E, "gunconn": 0x0E, "read": 0x4C, "readfrag": 0x52, "write": 0x4D, "writefrag": 0x53, "rmw": 0x4E}[kind], 0, [], data if kind in ("read", "readfrag") else b"")
-    frame = rr_frame(cip) if kind == "gunconn" else unit_frame(cip)
-    status_end = 44 if kind == "gunconn" else 50
+    if kind == "register":
+        frame = enc_frame(0x65, b"\x01\x00\x00\x00", session=session)
+        status_end = 12      # the encapsulation status is the only status word of this reply
+    elif kind == "listidentity":
+        from ..refcodec import encode_list_identity_item
+        from ..refplc import DEFAULT_IDENTITY
+        item = encode_list_identity_item(DEFAULT_IDENTITY)
+        frame = enc_frame(0x63, struct.pack("<HHH", 1, 0x0C, len(item)) + item, session=session)
+        status_end = 12
+    else:
+        cip = cip_reply({"gconn": 0x0E, "gunconn": 0x0E, "read": 0x4C, "readfrag": 0x52, "write": 0x4D, "writefrag": 0x53, "rmw": 0x4E}[kind], 0, [],
+                        data if kind in ("read", "readfrag") else b"")
+        frame = rr_frame(cip) if kind == "gunconn" else unit_frame(cip)
+        status_end = 44 if kind == "gunconn" else 50
     frame = frame[:cut]
     try:
         resp = req.response_class(req, frame)
@@ -428,12 +439,13 @@ def run_job(ctx, job):
                     for d in discs:
                         ctx.violation(d, "multi", {"statuses": st_, "wrapper": ws})
     elif part == "short":
-        for kind in ["gconn", "gunconn", "read", "readfrag", "write", "writefrag", "rmw"]:
+        for kind in ["gconn", "gunconn", "read", "readfrag", "write", "writefrag", "rmw", "register", "listidentity"]:
             for cut in range(0, 60):
-                discs = check_short_reply(kind, cut)
-                ctx.case(("short", kind, cut), True, ["corrupt", "short-reply"])
-                for d in discs:
-                    ctx.violation(d, "short", {"kind": kind, "cut": cut})
+                for session in ([0x1234] if kind not in ("register", "listidentity") else [0x1234, 1, 0xFFFFFFFF, 0x00010000]):
+                    discs = check_short_reply(kind, cut, session)
+                    ctx.case(("short", kind, cut, session), True, ["corrupt", "short-reply"])
+                    for d in discs:
+                        ctx.violation(d, "short", {"kind": kind, "cut": cut, "session": session})
     elif part == "forced":
         def check_case(case):
             discs, run = check_forced(case)
@@ -450,7 +462,7 @@ def replay(ctx, kind, case):
     if kind == "multi":
         return check_multi([(s, e) for s, e in case["statuses"]], case["wrapper"])
     if kind == "short":
-        return check_short_reply(case["kind"], case["cut"])
+        return check_short_reply(case["kind"], case["cut"], case.get("session", 0x1234))
     if kind == "forced":
         return check_forced(case)[0]
     return check_corrupt(case)
